@@ -27,4 +27,13 @@ theorem pureDm_no_hidden_state :
     Gen.Datamatrix.fact_globalWrites = [] ∧ Gen.Datamatrix.fact_aliasAssign = [] ∧ Gen.Datamatrix.fact_fixedArrays = [] ∧ Gen.Datamatrix.fact_receiverWrites = [] := by
   decide
 
+/-- The library routines these packages call are exactly the ones the models were written against (DESIGN §7, item 5):
+    a body that starts to use another routine — `math/bits.Div` instead of `big.Int.DivMod`, `hash/crc32`,
+    `bytes.TrimPrefix`, `strings.HasPrefix` — is outside what the model mirrors, whether or not an input shows it. -/
+theorem pureDm_external_calls :
+    Gen.Root.fact_externalCalls = ["(image.Image).At", "(image.Image).Bounds", "(image.Image).ColorModel", "errors.New", "fmt.Errorf", "image.Rect", "math.Min"] ∧
+    Gen.Utils.fact_externalCalls = ["(*sync.Mutex).Lock", "(*sync.Mutex).Unlock", "image.Rect"] ∧
+    Gen.Datamatrix.fact_externalCalls = ["errors.New", "image.Rect", "strconv.Itoa"] := by
+  decide
+
 end BV.Props.PureDm
